@@ -600,6 +600,18 @@ func (t *Transport) gsReqRecdHook(p peer.ID, request graphsync.RequestData, hook
 
 		log.Debugf("%s: received request for data (pull), req_id=%d", chid, request.ID())
 
+		// A cancel message makes the events handler clean up the channel,
+		// which takes the channel lock: hand it over without holding that
+		// lock, and do not serve data on a channel that was just cancelled
+		if dtRequest, ok := msg.(datatransfer.Request); ok && dtRequest.IsCancel() {
+			if _, err := t.events.OnRequestReceived(chid, dtRequest); err != nil {
+				hookActions.TerminateWithError(err)
+				return
+			}
+			hookActions.TerminateWithError(errors.New("data transfer channel cancelled by the requester"))
+			return
+		}
+
 		// Lock the channel for the duration of this method
 		ch = t.trackDTChannel(chid)
 		ch.lk.Lock()
